@@ -455,7 +455,7 @@ theorem listMax_spec : âˆ€ (l : List Nat) (m : Nat), listMax l = some m â†’ m âˆ
 
 /-! ### discoverField in parts -/
 
-def nUniq (c : Column) : Int := if c.ftype == .string || c.ftype == .int then calcNunique c else -1
+def nUniq (c : Column) : Int := if c.ftype != .real then calcNunique c else -1
 
 def uniqs0 (c : Column) : Option (List Val) :=
   if c.ftype == .string && nUniq c â‰¤ maxCategories then some (calcUniques c) else none
